@@ -472,7 +472,8 @@ def template(src, flags, g):
             out.append('// %s: derive emitted an Encode impl overriding none of encode_to/using_encoded/encode: the three trait defaults\n'
                        '// are mutually recursive -> obligation wf.encode_defaults.%s FAILS (reported by the driver); no Verus text generated.' % (d['name'], d['name']))
             continue
-        props = 'C05'
+        # derived encoders/decoders are also instances of the wire-format (C01), language (C03), entry-point (C07) and limit (C11, C12) properties
+        props = 'C05,C01,C03,C07,C11,C12'
         out.append('pub mod fam_%s {' % d['name'])
         out.append('use super::*;')
         out.append('broadcast use auto::psc_min;')
